@@ -58,7 +58,8 @@ class Mismatch:
         :param details: Extra details about the mismatch.  Defaults
             to the empty dict.
         """
-        if description:
+        if description is not None:
+            # (An empty description is still a description.)
             self._description = description
         if details is None:
             details = {}
